@@ -33,6 +33,7 @@ def has(*subs):
 
 XLIST = {
     "C01": [
+        ("c08.fd_bound", {"S14": "W15"}, {"W15": "a conformant message carrying exactly MAX_ATTACHED_FD_ENTRIES (32) descriptors / regions is encoded and sent, not refused: every test against the bound is inclusive (sibling agreement of the count tests)"}),
         ("c11", {"T1": ("W13", has("get_vring_base:result"))}, {"W13": "the GET_VRING_BASE reply carries (index, next-available) in that order (C11/T1)"}),
         ("c05.v1", {"V1": ("W14", has("vringfd"))}, {"W14": "the notifier requests' u64 is decoded as the specification says: bit 8 set means no descriptor travels (C05/V1)"}),
         ("c18.b3", {"B3": ("W11", has("ack-helper:value"))}, {"W11": "the acknowledgement written on the backend-request channel carries 0 for success and a non-zero status for every failure (C18/B3)"}),
